@@ -301,6 +301,42 @@ func runProgram(p *Program) string { //nolint:cyclop,gocognit
 				}
 			}
 		}
+		if p.Member == "nack-responder-rtx" {
+			// RTX sequence numbers are allocated when a packet is stored, by writers running in parallel: ask for everything that can still be
+			// in the histories and look at the numbers the retransmissions carry - an allocation handed out twice shows as a duplicate
+			buf := make([]byte, 1700)
+			for i := 0; i < nLocal; i++ {
+				for w := 0; w < p.Writers; w++ {
+					for k := 0; k < p.Ops; k += 16 {
+						raw, err := rtcp.Marshal([]rtcp.Packet{&rtcp.TransportLayerNack{SenderSSRC: 9, MediaSSRC: localInfos[i].SSRC, Nacks: []rtcp.NackPair{{PacketID: uint16(w*10000 + k), LostPackets: 0x7FFF}}}}) //nolint:gosec
+						if err != nil {
+							continue
+						}
+						rig.RTCPSrc.Push(raw)
+						_, _, _ = rig.RTCPIn.Read(buf, interceptor.Attributes{})
+					}
+				}
+			}
+			kit.Idle() // the answers have been written
+			for i := 0; i < nLocal; i++ {
+				// a packet keeps the RTX number it was given when it was stored (asked for twice, it goes out twice under that number); two
+				// different packets - different original sequence numbers in the RTX payload - never share one while fewer than 2^16 were stored
+				seen := map[uint16]uint16{}
+				n := 0
+				for _, c := range sinks[i].Calls() {
+					if c.Header.SSRC != localInfos[i].SSRCRetransmission || len(c.Payload) < 2 {
+						continue
+					}
+					n++
+					osn := uint16(c.Payload[0])<<8 | uint16(c.Payload[1])
+					if prev, dup := seen[c.Header.SequenceNumber]; dup && prev != osn && int(wrote[0].Load()+wrote[1].Load()) < 60000 {
+						return fmt.Sprintf("RTX sequence allocation lost updates: the retransmissions of packets %d and %d on ssrc %#x both carry RTX sequence number %d (%d retransmissions seen)",
+							prev, osn, localInfos[i].SSRCRetransmission, c.Header.SequenceNumber, n)
+					}
+					seen[c.Header.SequenceNumber] = osn
+				}
+			}
+		}
 		if rig.Async && p.Member == "pacing" {
 			for i := 0; i < nLocal; i++ {
 				want := accepted[i].Load()
@@ -328,7 +364,7 @@ func allStacks() string {
 }
 
 // the members with goroutines of their own between the application and the transport get more of the cases
-var members = append([]string{"chain", "chain", "chain-reversed", "chain-reversed", "cc-leaky-bucket", "cc-leaky-bucket", "pacing", "nack-responder-small", "nack-responder-small"}, kit.AllNames...)
+var members = append([]string{"chain", "chain", "chain-reversed", "chain-reversed", "cc-leaky-bucket", "cc-leaky-bucket", "pacing", "nack-responder-small", "nack-responder-small", "nack-responder-rtx"}, kit.AllNames...)
 
 func TestConcurrentPrograms(t *testing.T) {
 	if rp := kit.ReplayFile(); rp != "" {
